@@ -538,10 +538,10 @@ class CodeGenerator(NodeVisitor):
             self.visit(node.dyn_args, frame)
 
         if kwarg_workaround:
-            if node.dyn_kwargs is not None:
-                self.write(", **dict({")
-            else:
-                self.write(", **{")
+            # the explicit keywords and the dynamic ones are unpacked
+            # separately so that python rejects a repeated keyword
+            # like it does for the plain call.
+            self.write(", **{")
             for kwarg in node.kwargs:
                 self.write(f"{kwarg.key!r}: ")
                 self.visit(kwarg.value, frame)
@@ -549,12 +549,10 @@ class CodeGenerator(NodeVisitor):
             if extra_kwargs is not None:
                 for key, value in extra_kwargs.items():
                     self.write(f"{key!r}: {value}, ")
+            self.write("}")
             if node.dyn_kwargs is not None:
-                self.write("}, **")
+                self.write(", **")
                 self.visit(node.dyn_kwargs, frame)
-                self.write(")")
-            else:
-                self.write("}")
 
         elif node.dyn_kwargs is not None:
             self.write(", **")
